@@ -100,6 +100,10 @@ func init() {
 			fr.i.run.abort("fatal", "os.Exit")
 			return nil, true
 		},
+		"os.Getwd": func(fr *frame, a []value) (value, bool) {
+			fr.i.run.stubs["os.Getwd (constant /repo)"]++
+			return tuple{"/repo", iface{}}, true
+		},
 		"runtime.Gosched":       func(fr *frame, a []value) (value, bool) { fr.i.run.scheduler().yield("gosched"); return nil, true },
 		"runtime.GC":            func(fr *frame, a []value) (value, bool) { return nil, true },
 		"runtime.KeepAlive":     func(fr *frame, a []value) (value, bool) { return nil, true },
